@@ -19,9 +19,9 @@ import (
 // subtree of a context, empties its child table and only then recycles it (V16).
 func (r *ruler) helperRules() {
 	p := r.m.P
-	sp := p.SPkg("vm")
+	_ = p
 	// ---- V15
-	if fn := sp.Func("hashContext"); fn == nil {
+	if fn := r.m.HashFn; fn == nil {
 		r.s.Unk("ANCHOR", "vm.hashContext", "-", "not found")
 	} else {
 		in := absint.NewInterp(p.SSA, &absint.Oracle{})
@@ -59,7 +59,7 @@ func (r *ruler) helperRules() {
 		}
 	}
 	// ---- V16
-	fn := sp.Func("deleteContext")
+	fn := r.m.DelFn
 	if fn == nil {
 		r.s.Unk("ANCHOR", "vm.deleteContext", "-", "not found")
 		return
@@ -71,7 +71,7 @@ func (r *ruler) helperRules() {
 	st := absint.Zero(ctxNamed).(*absint.Struct)
 	f := append([]absint.Val(nil), st.F...)
 	for i := 0; i < r.m.CtxT.NumFields(); i++ {
-		f[i] = absint.NewVar("CTX."+r.m.CtxT.Field(i).Name(), r.m.CtxT.Field(i).Type())
+		f[i] = absint.NewVar("CTX."+r.m.CtxRoles[i], r.m.CtxT.Field(i).Type())
 	}
 	cell := in.NewCell(&absint.Struct{T: ctxNamed, F: f}, "CTX")
 	cell.Name = "CTX"
@@ -138,8 +138,8 @@ func (r *ruler) helperRules() {
 // context to two live iterators (seeds C02-Q, C08-Q).
 func (r *ruler) releaseSites() {
 	p := r.m.P
-	sp := p.SPkg("vm")
-	del := sp.Func("deleteContext")
+	_ = p
+	del := r.m.DelFn
 	if del == nil {
 		return // reported by V16
 	}
